@@ -111,7 +111,26 @@ def scripts_from_graph(g, c, *, cap, seed, res):
             panic["%s.%d" % (s, rnd.randrange(len(prog[s])) + 1)] = True
         scripts.append({"id": "%s#%d" % (c["name"], len(scripts)), "variant": c["variant"], "executor": c["executor"],
                         "subs": prog, "order": sorted(prog), "close": c["close"], "panic": panic, "steps": steps})
-    return scripts
+    # arrive variants: before some steps of a submitter (or the closer) the thread is first moved up to the lock of its
+    # critical section without being granted it, at a random earlier point of the schedule: code that the library executes
+    # before it takes the lock (an unlocked look at shared state) then runs early
+    extra = []
+    for sc in scripts[:max(1, len(scripts) // 2)]:
+        steps = [dict(x) for x in sc["steps"]]
+        out, done = [], False
+        for i, st in enumerate(steps):
+            if (st["t"] in prog or st["t"] == "closer") and rnd.random() < 0.4:
+                # position of the arrive step: somewhere after the previous step of the same thread
+                prev = max([k for k in range(len(out)) if out[k]["t"] == st["t"]] or [-1])
+                pos = rnd.randint(prev + 1, len(out))
+                out.insert(pos, {"t": st["t"], "a": "Arrive", "x": {}, "e": False, "arr": True})
+                done = True
+            out.append(st)
+        if done:
+            for st in out:
+                st["x"] = {}          # the list length of the model is compared only in the linearized scripts
+            extra.append(dict(sc, id=sc["id"] + "~arr", steps=out, arrive=True))
+    return scripts + extra
 
 
 def run_sched(res, scratch, scripts, binary):
